@@ -195,7 +195,7 @@ def psi4_case(task):
 def main(tier):
     run = runner.Run(PID, tier, "exploration")
     H.selftest()
-    lmax = 8
+    lmax = 12 if tier == 'quick' else 20
     total = 0
     # (a) orthonormality, complete for l <= lmax
     for r in runner.pmap(ortho_case, [(s, lmax) for s in SPINS], workers=5):
